@@ -46,6 +46,17 @@ fn small_elem(rng: &mut Rng) -> Element {
     }
 }
 
+/// membership bookkeeping of one batch; an element listed on both sides keeps the status it had
+fn apply_batch(set: &mut Vec<Element>, adds: &[Element], dels: &[Element]) {
+    let before = set.clone();
+    set.retain(|e| !dels.contains(e) || (adds.contains(e) && before.contains(e)));
+    for a in adds {
+        if !set.contains(a) && !dels.contains(a) {
+            set.push(*a);
+        }
+    }
+}
+
 pub fn gen_c14(em: &mut Emitter, rng: &mut Rng) {
     em.rule = "random accumulator histories (1..4 batches of 0..4 additions / deletions, tracked element inside or outside, \
                deleted or not) on the real vb20 API; every coefficient vector, accumulator value, from-scratch / batch / \
@@ -113,6 +124,22 @@ pub fn gen_c14(em: &mut Emitter, rng: &mut Rng) {
                 dels.insert(pos, y);
                 y_deleted_at = Some(bi);
             }
+            // an element both added and deleted in the same batch (net no-op on the value, but present in the
+            // published lists): a fresh one, or a current member other than y
+            if rng.chance(1, 4) {
+                if rng.coin() && !adds.is_empty() {
+                    let e = adds[rng.below(adds.len() as u64) as usize];
+                    let pos = rng.below(dels.len() as u64 + 1) as usize;
+                    dels.insert(pos, e);
+                    em.count("overlap:fresh-added-and-deleted");
+                } else if let Some(e) = set.iter().cloned().find(|e| *e != y && !dels.contains(e) && !adds.contains(e)) {
+                    let pa = rng.below(adds.len() as u64 + 1) as usize;
+                    adds.insert(pa, e);
+                    let pd = rng.below(dels.len() as u64 + 1) as usize;
+                    dels.insert(pd, e);
+                    em.count("overlap:member-deleted-and-readded");
+                }
+            }
             // model vs implementation: coefficient scalars
             let coefs_sc = key.create_coefficients(&adds, &dels);
             em.op(format!("vb.coef {} {} {}", sc_hex(&alpha), el(&adds), el(&dels)), el(&coefs_sc));
@@ -128,10 +155,7 @@ pub fn gen_c14(em: &mut Emitter, rng: &mut Rng) {
             if acc_new.0 != g * v_new {
                 em.violation("accumulator-update-value", "Accumulator::update value != V·∏A(α)/∏D(α)", json!({"alpha": sc_hex(&alpha), "v": sc_hex(&v), "adds": el(&adds), "dels": el(&dels)}));
             }
-            for d in &dels {
-                set.retain(|e| e != d);
-            }
-            set.extend(adds.iter().cloned());
+            apply_batch(&mut set, &adds, &dels);
             let coef_dl: Vec<Scalar> = coefs_sc.iter().map(|c| c.0 * v).collect();
             batches.push(Batch { adds, dels, coefs, coef_dl, v_old: v, v_new, acc_old: acc, acc_new });
             acc = acc_new;
@@ -266,9 +290,9 @@ pub fn gen_c14(em: &mut Emitter, rng: &mut Rng) {
                         format!("{} {}", g1_hex(&w.c), sc_hex(&w.d)),
                     );
                     for d in &b.dels {
-                        cur.retain(|e| e != d);
+                        let _ = d;
                     }
-                    cur.extend(b.adds.iter().cloned());
+                    apply_batch(&mut cur, &b.adds, &b.dels);
                     let fresh = NonMembershipWitness::new(y, &cur, &key).unwrap();
                     em.op(format!("vb.nmnew {} {} {}", sc_hex(&alpha), sc_hex(&y.0), el(&cur)), format!("{} {}", g1_hex(&fresh.c), sc_hex(&fresh.d)));
                     em.op(
